@@ -192,8 +192,17 @@ def bounded_passthrough(reg, tier, seed):
         if len(failures) < 5:
             failures.append({"key": "passthrough/bounded", "clause": what, "input": inp, "observed": what})
 
+    from hippolyzer.lib.base.message.message import Message as _BadM, Block as _BadB
+
     def reencode(data, order):
         """returns (bytes or exception, message)"""
+        if rng.random() < 0.15:
+            # the serializer is a long-lived object (one per circuit): an encoding that failed earlier (here: a message with unset
+            # fields) must leave nothing behind in it
+            try:
+                ser.serialize(_BadM("ChatFromViewer", _BadB("AgentData", AgentID=None), _BadB("ChatData", Message="x")))
+            except Exception:  # noqa
+                pass
         if order == "eager":
             m = de_eager.deserialize(data)
             return ser.serialize(m), m
@@ -212,6 +221,13 @@ def bounded_passthrough(reg, tier, seed):
         try:
             m = msggen.gen_message(t, rng, boundary=rng.random() < 0.4, flags=rng.choice([0, 0x40, 0x80, 0xC0]),
                                    acks=rng.choice([None, (3, 9)]), extra=rng.choice([b"", b"\x01\x02"]))
+            # a BOOL travels as one byte and peers are not obliged to send only 0 or 1
+            from hippolyzer.lib.base.message.msgtypes import MsgType as _MT
+            for tb_ in t.blocks:
+                for tv_ in tb_.variables:
+                    if tv_.type == _MT.MVT_BOOL and rng.random() < 0.5:
+                        for b_ in m.blocks.get(tb_.name, []):
+                            b_[tv_.name] = rng.choice([2, 0x7f, 0x80, 0xff])
             base = ser.serialize(m)
         except Exception:  # noqa
             continue
